@@ -212,14 +212,15 @@ def second_crash(sym, tier):
     crash comes after a symbolic number of phase-2 events; recover (twice) and read every key."""
     r = Result()
     pol = sym.choice("policy", 3)
-    msize = 2 + sym.choice("memtable_minus_2", 3)
+    deep = tier != "quick"
+    msize = 2 + sym.choice("memtable_minus_2", 4 if deep else 3)
     wal = WriteAheadLog("wal", sync_policy=_policy(pol))
     t = LSMTree("lsm", memtable_size=msize, compaction_strategy=SizeTieredCompaction(min_sstables=4), wal=wal, max_levels=3)
-    n1 = 2 + sym.choice("phase1_writes_minus_2", 2)
-    v = [sym.int(f"v{i}", 1 + 10 * i, 9 + 10 * i) for i in range(5)]
+    n1 = 2 + sym.choice("phase1_writes_minus_2", 3 if deep else 2)
+    v = [sym.int(f"v{i}", 1 + 10 * i, 9 + 10 * i) for i in range(6 if deep else 5)]
     k0_deleted = sym.bool("phase2_deletes_k0")
-    crash2_after = sym.int("second_crash_after_events", 0, 40)
-    phase1 = [("k0", v[0]), ("k1", v[1]), ("k2", v[2])][:n1]
+    crash2_after = sym.int("second_crash_after_events", 0, 60 if deep else 40)
+    phase1 = ([("k0", v[0]), ("k1", v[1]), ("k2", v[2])] + ([("k0", v[5])] if deep else []))[:n1]   # thorough: k0 may be overwritten within phase 1
     phase2 = [("k0", None if k0_deleted else v[3]), ("k1", v[4]), ("k3", 71), ("k4", 72), ("k5", 73)]
     keys = ["k0", "k1", "k2", "k3", "k4", "k5"]
     log = []          # [seq, key, value or None, durable at return]
@@ -331,10 +332,10 @@ HARNESSES = [
                            "memtable size": [1, 2], "policies": POLICIES},
       outside=["crash in the middle of a compaction (min_sstables=4 is not reached by 4 writes)", "disk model", "more than 4 writes"]),
     H(name="c15_second_crash", fn=second_crash, shape="S", budget=lambda tier: 900.0,
-      cubes=lambda tier: [{"policy": a, "memtable_minus_2": b, "phase2_deletes_k0": d} for a in range(3) for b in range(3) for d in range(2)],
+      cubes=lambda tier: [{"policy": a, "memtable_minus_2": b, "phase2_deletes_k0": d} for a in range(3) for b in range(3 if tier == "quick" else 4) for d in range(2)],
       require=lambda tier: ["first_recovery_replays_two_synced_entries", "second_crash_after_a_phase2_flush_completed", "ran_to_completion"], classify=classify,
       functions=["LSMTree.put/delete/_flush_memtable/crash/recover_from_crash (bookkeeping of replayed WAL sequences)", "WriteAheadLog.append/discard/crash/recover", "Memtable.put/flush"],
-      bounds=lambda tier: {"writer": "1, sequential", "phase 1": "2..3 puts, then settled", "first crash": "at the quiet moment after phase 1", "phase 2": "delete|put k0, put k1, 3 new keys",
-                           "second crash after": "symbolic number of phase-2 events [0,40]", "memtable size": [2, 3, 4], "values": "symbolic", "policies": POLICIES},
+      bounds=lambda tier: {"writer": "1, sequential", "phase 1": "2..3 puts, then settled" if tier == "quick" else "2..4 puts (the 4th overwrites k0), then settled", "first crash": "at the quiet moment after phase 1", "phase 2": "delete|put k0, put k1, 3 new keys",
+                           "second crash after": "symbolic number of phase-2 events [0,%d]" % (40 if tier == "quick" else 60), "memtable size": [2, 3, 4] if tier == "quick" else [2, 3, 4, 5], "values": "symbolic", "policies": POLICIES},
       outside=["first crash in the middle of phase 1 (c15_crash_recovery covers single crashes at any event)", "three or more crash/recover cycles", "concurrent writers across two crashes"]),
 ]
